@@ -270,6 +270,10 @@ impl Uci {
             }
             UciCommand::UciNewGame => {
                 self.game = Game::new();
+
+                // Any earlier search has finished: forget its stop handle, otherwise a later
+                // 'stop' would wait on the freshly reset latch forever
+                self.control = None;
                 self.is_stopped.reset();
 
                 let mut persistent_state_handle = self.persistent_state.lock().unwrap();
